@@ -117,7 +117,9 @@ func labRace(e labEnv) {
 			src := &rawSource{}
 			v, err := sack.VerifNewDriver(sack.Params{Target: netip.AddrPortFrom(netip.AddrFrom4(t4), 443), HandshakeTimeout: time.Second, ParallelParams: pp, LoosenICMPSrc: true}, netip.AddrFrom4(l4), nullSink{}, src)
 			must(err)
-			src.pkts = [][]byte{c.synack(true, 0, 0x12)}
+			// on odd repetitions the handshake negotiates TCP timestamps and the later acknowledgements carry an advancing TSval
+			tsMode := rep % 2
+			src.pkts = [][]byte{c.synack(true, tsMode, 0x12)}
 			must(v.ReadHandshake(50123))
 			src.mu.Lock()
 			src.pkts = nil
@@ -130,6 +132,8 @@ func labRace(e labEnv) {
 				opt := []byte{1, 1, 5, 10, 0, 0, 0, 0, 0, 0, 0, 0}
 				binary.BigEndian.PutUint32(opt[4:], c.initSeq+9)
 				binary.BigEndian.PutUint32(opt[8:], c.initSeq+10)
+				ts := []byte{1, 1, 8, 10, 0x7f, 0xff, 0xff, 0xf0, 0, 0, 0, 1}
+				opt = append(ts, opt...)
 				seg := buildTCP4(tcpHdr{sport: 443, dport: 50123, seq: 78, ack: c.initSeq, flags: 0x10, win: 512, opts: opt}, nil, t4, l4)
 				src.pkts = append(src.pkts, buildIP4(ip4Hdr{ttl: 60, proto: 6, src: t4, dst: l4}, seg))
 			}
